@@ -160,15 +160,18 @@ func buildOne(fc fedConfig) built {
 			return b
 		}
 		s := string(raw)
-		for _, t := range []string{"Req", "MultiReq"} {
+		for _, t := range []string{"Req", "MultiReq", "Req3", "MultiReq3"} {
 			old := `panic(fmt.Errorf("not implemented: Populate` + t + `Requires"))`
 			if !strings.Contains(s, old) {
 				b.Err = fmt.Errorf("federation.requires.go: no generated stub body for Populate%sRequires:\n%s", t, s)
 				return b
 			}
-			s = strings.Replace(s, old, `return RequiresHook(ctx, "Populate`+t+`Requires", reps, func(w int) { entity.Weight = w; entity.Cost = 1000 + w })`, 1)
+			body := `return RequiresHook(ctx, "Populate` + t + `Requires", reps, func(w int) { entity.Weight = w; entity.Cost = 1000 + w })`
+			if strings.HasSuffix(t, "3") {
+				body = `return Requires3Hook(ctx, "Populate` + t + `Requires", reps, func(q int, l string, r float64) { entity.Qty, entity.Label, entity.Ratio = q, l, r; entity.Total = fmt.Sprintf("%d|%s|%g", q, l, r) })`
+			}
+			s = strings.Replace(s, old, body, 1)
 		}
-		s = strings.Replace(s, "\t\"fmt\"\n", "", 1)
 		os.WriteFile(p, []byte(s), 0o644)
 		os.WriteFile(filepath.Join(res.Dir, "graph", "requires_hook.go"), []byte(readHarness("requires_hook.go.txt")), 0o644)
 	}
@@ -275,6 +278,7 @@ var assumptions = []string{
 	"only fields whose value the statement defines are selected: Req{id weight cost} / MultiReq{id weight cost} in default mode (weight copied from the representation by generated code), Req{id weight cost} (cost, weight set by the user-written populator from the representation it is handed) and MultiReq{id weight} under explicit_requires (gqlgen does not call populators on the multi path), Req{id cost} / MultiReq{id cost} under computed_requires (cost computed by the field resolver from the representation it is handed)",
 	"stub resolvers behave like real resolvers that hand their context to a backend client: after their scheduling point they return ctx.Err() when their context has been cancelled; the harness never cancels the request context, so any cancellation is the doing of the code under test (context is swapped for vcontext in the instrumented generated code: cancel is a visible operation)",
 	"key VALUES of the wrong JSON type (object / list for ID! / String!, string for Int!) are in the alphabet for single, multi and nested keys: such a representation must be null with an error and must not move any other element. For a multi-resolver batch that contains one, gqlgen rejects the whole batch call before invoking the resolver; this whole-batch rejection (every representation of that batch null, with an error) is accepted ONLY for batches containing such a not-well-formed representation. Values gqlgen's lenient scalars coerce (bool for ID!, number for String!; a null component of a key that is not all null, read as \"\" / \"null\" / 0) may be answered either way (null + error, or the entity of the coerced key): whether they are accepted is input coercion (C02)",
+	"required (@requires) field VALUES: a value the field's scalar rejects (string for Int / Float, object, list) must fail THAT representation (null + error), never yield a zero value and never change another element; absent / null required values (read as the zero value by gqlgen's built-in scalars) and a number for String (coerced) may be answered either way where generated code copies the field (default mode, multi path); the user-written populator (explicit_requires, Req3) and the computed `total` resolvers (computed_requires) of the harness are strict: anything but a well-typed value fails the representation. Selected fields: Req3 / MultiReq3 {id qty label ratio total} in default mode, Req3 {id qty label ratio total} and MultiReq3 {id qty label ratio} under explicit_requires, {id total} under computed_requires",
 	"memory-level data races are invisible to a cooperative scheduler (generated code writes list[rep.index] from several goroutines: distinct indices, checked here only through the resulting values)",
 }
 
@@ -411,7 +415,8 @@ func main() {
 		names = append(names, l.Name+"="+l.JSON)
 	}
 	c.Cov["bounds"] = map[string]any{"alphabet": names,
-		"key_combination_stage": fmt.Sprintf("entities Tri / MultiTri with @key(upc region) @key(sku) @key(id): all %d representations {present non-null, null, absent}^4 over their key fields, each alone (fault-free + every single fault) and paired in both orders with a well-formed same-type and a different-type representation (fault-free); every schedule, no bound; in both tiers and every configuration", len(c20.KeyCombos)), "fault_kinds": []string{"error", "panic", "nil"},
+		"key_combination_stage":            fmt.Sprintf("entities Tri / MultiTri with @key(upc region) @key(sku) @key(id): all %d representations {present non-null, null, absent}^4 over their key fields, each alone (fault-free + every single fault) and paired in both orders with a well-formed same-type and a different-type representation (fault-free); every schedule, no bound; in both tiers and every configuration", len(c20.KeyCombos)),
+		"required_field_combination_stage": fmt.Sprintf("entities Req3 / MultiReq3 whose `total` @requires qty: Int!, label: String!, ratio: Float!: all %d representations {well-typed, absent, null, wrong scalar type, object, list}^3 over the required fields, each alone (fault-free + every single fault; every schedule) and paired in both orders with a well-formed same-type representation with other values and with a different-type one (fault-free; canonical schedule, the well-formed combination on every schedule); both tiers, every configuration (default / explicit_requires / computed_requires)", len(c20.ReqCombos)), "fault_kinds": []string{"error", "panic", "nil"},
 		"max_steps": 20000, "max_deviations_seen": maxCost, "max_steps_seen": maxStepsSeen, "configurations": len(run)}
 	c.Cov["per_config"] = per
 	c.Cov["configs_rejected_by_generator"] = notGenerated
